@@ -255,6 +255,12 @@ func CheckC04(r *core.Run) {
 		}
 	})
 	traces := histories(r, cfgs)
+	sc := c04Scenarios(r)
+	for _, t := range sc {
+		r.AddDistinct(t.Name)
+		r.AddEvals(int64(len(t.Events)))
+	}
+	traces = append(traces, sc...)
 	sampleTrace(r, traces)
 	judgeTx(r, traces, reportOpts{})
 }
